@@ -35,6 +35,10 @@ RULE = (
     "sent through the real send path (a sender XKNX with current_address = the sender, CEMIHandler.send_telegram, recording "
     "interface stub that confirms with L_Data.con; telegram once with the default 0.0.0 source and once with an explicit source; "
     "always A+C, the only algorithm the send path selects) and the recorded frame is given to a fresh receiver; and it is "
+    "(receiver re-initialisation: cemi_handler.data_secure_init(keyring) 2..4 times on one receiver with keyrings whose sender / group "
+    "key sets are superset, subset, disjoint, equal, sender-only superset or carry a replaced key, with and without traffic in between; "
+    "afterwards fresh frames from every sender to every group under every key: delivered iff sender and key belong to the LAST "
+    "keyring, same verdicts as a receiver initialised once; enumerated incl. genuine Keyring objects, and generated) "
     "(send histories: one sender, one receiver, 2..4 telegrams to two secured groups through send_telegram with an interface that "
     "per send delivers and returns / delivers and then raises CommunicationError / raises without delivering, and an L_Data.con that "
     "may be lost - all fault sequences of length 2..3 enumerated, longer ones generated: every secured frame that reached the receiver "
@@ -44,6 +48,10 @@ RULE = (
     "(distinct by input); frames whose secured NPDU exceeds 254 octets are outside the domain."
 )
 ASSUMPTIONS = [
+    "re-initialisation histories: generated keyrings are objects offering exactly what DataSecure.init_from_keyring reads "
+    "(get_data_secure_group_keys / get_data_secure_senders); the enumerated relations are repeated with genuine Keyring objects loaded from "
+    "files written by vk/ref/keyring_writer.py. Frames judged after the last initialisation carry sequence numbers above every keyring entry "
+    "and everything sent before, so whether learnt sequence numbers survive a re-initialisation is not judged",
     "send histories: xknx.cemi.cemi_handler.REQUEST_TO_CONFIRMATION_TIMEOUT is lowered to 2 ms while a history runs (restored afterwards) so that "
     "a lost L_Data.con does not cost 3 s of wall clock; an exception out of the interface's send_cemi does not imply the frame stayed off the bus "
     "(a tunnel raises CommunicationError after unacknowledged retries although the gateway may have forwarded the frame)",
@@ -514,6 +522,195 @@ def enumerate_send_histories(ctx) -> None:
                 n += 1
 
 
+# ---------------------------------------------------------------------------
+# receiver re-initialised from several keyrings (interface restarts)
+
+
+class TableKeyring:
+    """What DataSecure.init_from_keyring reads from a keyring: the group key table and the sender table."""
+
+    def __init__(self, k: dict) -> None:
+        self.groups = {GroupAddress(int(g)): bytes(key) for g, key in k["groups"]}
+        self.senders = {IndividualAddress(int(a)): int(seq) for a, seq in k["senders"]}
+
+    def get_data_secure_group_keys(self, receiver=None):
+        return dict(self.groups)
+
+    def get_data_secure_senders(self):
+        return dict(self.senders)
+
+
+def real_keyring(k: dict):
+    """The same tables as a genuine xknx Keyring: written as a *.knxkeys file by the independent writer
+    (vk/ref/keyring_writer.py) and loaded with xknx.secure.keyring.sync_load_keyring."""
+    import os
+    import tempfile
+
+    from vk.ref import keyring_writer as kw
+    from xknx.secure.keyring import sync_load_keyring
+
+    gas = [int(g) for g, _ in k["groups"]]
+    senders = [int(a) for a, _ in k["senders"]]
+    project = {
+        "project": "c15-reinit",
+        "created_by": "ETS 5.7.4 (Build 1093)",
+        "created": "2024-01-02T03:04:05",
+        "password": "pw",
+        "interfaces": [{"ia": 0xFF01, "type": "USB", "groups": [(g, senders) for g in gas]}],
+        "groups": [(int(g), bytes(key)) for g, key in k["groups"]],
+        "devices": [{"ia": int(a), "seq": int(seq)} for a, seq in k["senders"]],
+    }
+    fd, path = tempfile.mkstemp(prefix="c15-", suffix=".knxkeys", dir="/tmp")
+    try:
+        with os.fdopen(fd, "wb") as f:
+            f.write(kw.write(project))
+        return sync_load_keyring(path, "pw")
+    finally:
+        os.unlink(path)
+
+
+def oracle_reinit(ctx, hist) -> None:
+    """cemi_handler.data_secure_init(keyring) two or three times on ONE receiver (what every interface restart does),
+    optionally receiving frames in between; afterwards the receiver must know exactly the senders and group keys of the
+    LAST keyring: a fresh frame (sequence number above everything seen and above every keyring entry) from a sender and
+    to a group of the last keyring is delivered; frames from removed senders / to removed groups / under a replaced key
+    are not - the same verdicts as a receiver initialised once from the last keyring."""
+    hist = dict(hist)
+    ks = [dict(k) for k in hist["keyrings"]]
+    make = real_keyring if hist.get("real") else TableKeyring
+    last = ks[-1]
+    last_groups = {int(g): bytes(key) for g, key in last["groups"]}
+    last_senders = {int(a): int(q) for a, q in last["senders"]}
+    all_groups: dict[int, list[bytes]] = {}
+    next_seq: dict[int, int] = {}
+    for k in ks:
+        for g, key in k["groups"]:
+            all_groups.setdefault(int(g), [])
+            if bytes(key) not in all_groups[int(g)]:
+                all_groups[int(g)].append(bytes(key))
+        for a, q in k["senders"]:
+            next_seq[int(a)] = max(next_seq.get(int(a), 0), int(q))
+    rel = hist.get("relation", "?")
+    ctx.case(repr(hist), nontrivial=True, cls=("reinit", f"reinit:inits{len(ks)}", f"reinit:{rel}", "reinit:real-keyring" if hist.get("real") else "reinit:table-keyring"))
+    if len(ks) == 2 and not hist.get("real"):
+        ctx.sample({"reinit": rel, "keyrings": [{"groups": [g for g, _ in k["groups"]], "senders": list(map(list, k["senders"]))} for k in ks]})
+
+    def frame(src: int, ga: int, key: bytes) -> bytes:
+        next_seq[src] = next_seq[src] + 1 + (src + ga) % 5
+        spec = {"key": key, "src": src, "dst": ga, "tpci": "TDataGroup", "seq": next_seq[src], "alg": "enc" if (src + ga) % 3 else "auth",
+                "payload": ("gvw", bytes([src & 0xFF, ga & 0xFF])), "priority": 3, "repeat": False, "ack": False, "hop": 6, "code": 0x29}  # fmt: skip
+        return secure_frame(spec)[0]
+
+    def feed(xk, rec_, raw):
+        try:
+            xk.cemi_handler.handle_raw_cemi(raw)
+        except Exception as e:  # noqa: BLE001
+            return e
+        return delivered(xk, rec_)
+
+    rx = XKNX()
+    rec = ManagementRecorder()
+    rx.management = rec
+    try:
+        for i, k in enumerate(ks):
+            rx.cemi_handler.data_secure_init(make(k))
+            if i < len(ks) - 1 and hist.get("traffic_between", True):
+                for a, _q in k["senders"]:  # the receiver learns sequence numbers before the restart
+                    for g, key in k["groups"][:2]:
+                        out = feed(rx, rec, frame(int(a), int(g), bytes(key)))
+                        if isinstance(out, Exception):
+                            ctx.fail(f"C15:receiver-exc:{exc_site(out)}", hist, f"handle_raw_cemi raised {out!r} between initialisations")
+                            return
+        fresh = XKNX()
+        frec = ManagementRecorder()
+        fresh.management = frec
+        fresh.cemi_handler.data_secure_init(make(last))
+    except Exception as e:  # noqa: BLE001
+        ctx.fail(f"C15:reinit:init-exc:{exc_site(e)}", hist, f"data_secure_init raised {type(e).__name__}: {e}")
+        return
+    first_senders = {int(a) for a, _ in ks[0]["senders"]}
+    first_groups = {int(g) for g, _ in ks[0]["groups"]}
+    for src in sorted(next_seq):
+        for ga in sorted(all_groups):
+            for key in all_groups[ga]:
+                raw = frame(src, ga, key)
+                expect = src in last_senders and last_groups.get(ga) == key
+                got = feed(rx, rec, raw)
+                ref = feed(fresh, frec, raw)
+                if isinstance(got, Exception):
+                    ctx.fail(f"C15:receiver-exc:{exc_site(got)}", hist, f"handle_raw_cemi raised {got!r} after re-initialisation")
+                    continue
+                n = len(got)
+                if expect and n != 1:
+                    why = ("sender-new-in-last-keyring" if src not in first_senders else "sender-kept") + ":" + ("group-new-in-last-keyring" if ga not in first_groups else "group-kept")
+                    ctx.fail(
+                        f"C15:reinit:not-delivered:{why}",
+                        hist,
+                        f"after {len(ks)} initialisations ({rel}) a fresh frame from {IndividualAddress(src)} (listed in the last keyring, seq {next_seq[src]}) to "
+                        f"{GroupAddress(ga)} (key of the last keyring) delivered {n} telegrams; senders the receiver knows: "
+                        f"{sorted(str(a) for a in rx.cemi_handler.data_secure._individual_address_table)}; undecoded_data_secure={rx.connection_manager.undecoded_data_secure}",  # noqa: SLF001
+                    )
+                elif expect and (got[0].data_secure is not True or got[0].source_address != IndividualAddress(src)):
+                    ctx.fail("C15:reinit:telegram-differs", hist, f"{got[0]} data_secure={got[0].data_secure}")
+                elif not expect and n:
+                    why = "sender-removed" if src not in last_senders else ("group-removed" if ga not in last_groups else "replaced-key")
+                    ctx.fail(f"C15:reinit:delivered-unexpectedly:{why}", hist, f"frame from {IndividualAddress(src)} to {GroupAddress(ga)} delivered after re-initialisation ({rel}): {got[0]}")
+                if not isinstance(ref, Exception) and len(ref) != n:
+                    ctx.fail("C15:reinit:differs-from-fresh-receiver", hist, f"re-initialised receiver delivered {n}, receiver initialised once from the last keyring delivered {len(ref)} for frame from {IndividualAddress(src)} to {GroupAddress(ga)}")
+
+
+def _keyring_pair(relation: str, base_senders, base_groups, extra_senders, extra_groups):
+    k_small = {"senders": base_senders, "groups": base_groups}
+    k_big = {"senders": base_senders + extra_senders, "groups": base_groups + extra_groups}
+    k_other = {"senders": extra_senders, "groups": extra_groups}
+    return {"superset": [k_small, k_big], "subset": [k_big, k_small], "disjoint": [k_small, k_other], "equal": [k_big, k_big]}[relation]
+
+
+def reinit_histories():
+    from hypothesis import strategies as st
+
+    keys = st.binary(min_size=16, max_size=16)
+    ias = st.lists(st.integers(1, 0xFFFF), min_size=2, max_size=4, unique=True)
+    gas = st.lists(st.integers(1, 0xFFFF), min_size=2, max_size=4, unique=True)
+
+    @st.composite
+    def build(draw):
+        a, g = draw(ias), draw(gas)
+        seqs = [draw(st.one_of(st.just(0), st.integers(0, 1 << 40))) for _ in a]
+        ks = [draw(keys) for _ in g]
+        na, ng = draw(st.integers(1, len(a) - 1)), draw(st.integers(1, len(g) - 1))
+        base_s, extra_s = [[x, q] for x, q in zip(a[:na], seqs[:na])], [[x, q] for x, q in zip(a[na:], seqs[na:])]
+        base_g, extra_g = [[x, k] for x, k in zip(g[:ng], ks[:ng])], [[x, k] for x, k in zip(g[ng:], ks[ng:])]
+        rel = draw(st.sampled_from(("superset", "superset", "subset", "disjoint", "equal", "senders-only-superset", "replaced-key")))
+        if rel == "senders-only-superset":
+            pair = [{"senders": base_s, "groups": base_g + extra_g}, {"senders": base_s + extra_s, "groups": base_g + extra_g}]
+        elif rel == "replaced-key":
+            pair = [{"senders": base_s + extra_s, "groups": base_g}, {"senders": base_s + extra_s, "groups": [[x, draw(keys)] for x, _ in base_g]}]
+        else:
+            pair = _keyring_pair(rel, base_s, base_g, extra_s, extra_g)
+        if draw(st.booleans()):  # three initialisations: another keyring first
+            first = draw(st.sampled_from(pair))
+            pair = [first] + pair
+            rel = "3x:" + rel
+        return {"keyrings": pair, "relation": rel, "traffic_between": draw(st.booleans()), "real": False}
+
+    return build()
+
+
+def enumerate_reinit(ctx) -> None:
+    """Deterministic: every relation x {2, 3 initialisations} x traffic in between, table keyrings; and the relations once
+    each through genuine Keyring objects (file written by the independent writer, loaded by xknx)."""
+    base_s, extra_s = [[0x1101, 0], [0x1102, 500]], [[0x1203, 7], [0x1204, 0]]
+    base_g, extra_g = [[0x0901, bytes(range(16))], [0x0902, bytes(range(16, 32))]], [[0x0A01, bytes(range(32, 48))]]
+    for rel in ("superset", "subset", "disjoint", "equal"):
+        pair = _keyring_pair(rel, base_s, base_g, extra_s, extra_g)
+        for traffic in (True, False):
+            oracle_reinit(ctx, {"keyrings": pair, "relation": rel, "traffic_between": traffic, "real": False})
+            oracle_reinit(ctx, {"keyrings": [pair[1]] + pair, "relation": "3x:" + rel, "traffic_between": traffic, "real": False})
+            oracle_reinit(ctx, {"keyrings": pair + [pair[0], pair[1]], "relation": "4x:" + rel, "traffic_between": traffic, "real": False})
+        oracle_reinit(ctx, {"keyrings": pair, "relation": rel, "traffic_between": True, "real": True})
+
+
 def specs():
     from hypothesis import strategies as st
 
@@ -526,6 +723,7 @@ def specs():
 def _shard(ctx, n: int) -> None:
     hyp_search(ctx, specs(), oracle, n)
     hyp_search(ctx, send_histories(), oracle_send_history, max(20, n // 3), seed_salt=9)
+    hyp_search(ctx, reinit_histories(), oracle_reinit, max(20, n // 5), seed_salt=10)
 
 
 def enumerate_lengths(ctx) -> None:
@@ -569,6 +767,7 @@ def literal_frames(ctx) -> None:
 def run(ctx) -> None:
     literal_frames(ctx)
     enumerate_send_histories(ctx)
+    enumerate_reinit(ctx)
     enumerate_lengths(ctx)
     parallel(ctx, _shard, [(ctx.n(300, 8000),)] * ctx.n(8, 16))
 
@@ -578,5 +777,7 @@ def replay(ctx, case) -> None:
         literal_frames(ctx)
     elif "steps" in case:
         oracle_send_history(ctx, case)
+    elif "keyrings" in case:
+        oracle_reinit(ctx, case)
     else:
         oracle(ctx, case)
